@@ -277,6 +277,7 @@ class Interp:
         self.mock_mode = mock_mode     # how a listed key with an unlisted signature is treated ('normal' | 'fail')
         self.mock_pubs = set(p for _, p in mock) if mock else set()
         self.sighashes = []            # digests the checker computed during the last step
+        self.msig_trace = []           # per (signature, key) comparison of the last CHECKMULTISIG: True/False
         self.mock_touched = False      # a listed key was involved in some check
 
     def at_end(self):
@@ -606,6 +607,7 @@ class Interp:
                     if found and fl & F["CONST_SCRIPTCODE"]:
                         raise ScriptFail("SIG_FINDANDDELETE")
             success = True
+            self.msig_trace = []
             while success and nsigs > 0:
                 sig = st[-isig]
                 pub = st[-ikey]
@@ -617,6 +619,7 @@ class Interp:
                     self.check_pub_encoding(pub)
                     ok = self.checker.check_ecdsa(sig, pub, scriptcode, sv)
                     self._note_digest()
+                self.msig_trace.append(ok)
                 if ok:
                     isig += 1
                     nsigs -= 1
